@@ -253,7 +253,7 @@ def r5_6(cx):
     okj = len(somes) == 1
     if okj:
         facts = tj.facts_at(somes[0].bb)
-        both = [1 for e, v, ed in facts if e.kind == 'discr' and e.has_call(BA + '::contains') and v == ('in', frozenset([1]))]
+        both = [1 for e, v, ed in facts if (o := some_of(e, v)) is not None and is_call(o, BA + '::contains')]
         adj = [1 for e, v, ed in facts if (r := as_relation((e, v))) and r[0] == 'Eq' and r[1].strip().kind == 'binop' and r[1].strip().op == 'Add']
         okj = len(both) >= 2 and bool(adj)
     if okj:
@@ -337,7 +337,8 @@ def r5_8(cx):
     mr = prog.fn(AN + '::merge_ref_or_create')
     nw = [cs for cs in mr.calls(AN + '::new')]
     okm = len(nw) == 1 and nw[0].arg(1).has_call('Clone>::clone') and any(a.strip().kind == 'param' for a in nw[0].arg(1).walk())
-    same = [cs for cs in mr.calls(AN + '::is_same_chunk')]
+    # (Anchor::is_same_chunk is read through: it is always inlined, see normalize.ALWAYS_INLINE)
+    same = [cs for cs in mr.calls('Arc<T, A>::ptr_eq')] or [cs for cs in mr.calls('ptr_eq')]
     cx.check(okm and len(same) == 1, 'anchor-of-chunk', mr, None, 'a new Anchor clones the Arc of the chunk; an existing one is reused only if is_same_chunk',
              fail_detail='merge_ref_or_create does not tie the anchor to the allocating chunk')
     # an anchor's chunk is sticky: set at construction, never re-pointed (a parked zero-count anchor keeps the
@@ -369,8 +370,11 @@ def r5_8(cx):
              'Anchor.count is written only by increment_count / decrement_count / merge_ref_or_create', fail_detail='Anchor.count written in %s' % sorted(cw))
     mc = [(pos, mr.rvalue_expr(rv).strip()) for pos, pl, rv in mr.stores() if pl['p'] and pl['p'][-1].get('n') == 'count' and rv is not None]
     okmc = len(mc) == 1 and mc[0][1].kind == 'binop' and mc[0][1].op == 'Add' and mc[0][1].b.is_const_int(1) and \
-        any(v is True and is_call(e, AN + '::is_same_chunk') for e, v, ed in mr.facts_at(mc[0][0].bb))
-    cx.check(okmc, 'merge-same-chunk-only', mr, None, 'merge_ref_or_create bumps an existing anchor only on the is_same_chunk edge', fail_detail='an existing anchor is reused for a different chunk')
+        any(v is True and e.strip().kind == 'call' and e.strip().op.endswith('ptr_eq') and len(e.strip().args) == 2
+            and any(n.kind == 'proj' and n.info.get('n') == 'chunk' for n in e.strip().args[0].walk()) and 1 in e.strip().args[0].params()
+            and e.strip().args[1].strip().kind == 'param' and e.strip().args[1].strip().info['i'] == 2
+            for e, v, ed in mr.facts_at(mc[0][0].bb))
+    cx.check(okmc, 'merge-same-chunk-only', mr, None, 'merge_ref_or_create bumps an existing anchor only where Arc::ptr_eq(anchor.chunk, chunk) held', fail_detail='an existing anchor is reused for a different chunk')
     # exact count arithmetic of the three count methods
     dc = prog.fn(AN + '::decrement_count')
     st = [(pos, dc.rvalue_expr(rv).strip()) for pos, pl, rv in dc.stores() if pl['p'] and pl['p'][-1].get('n') == 'count' and rv is not None]
